@@ -79,6 +79,20 @@ def gen_unit(rng, nids, depth, maxlen):
         m = 'M' + ids[k][:20] + '_%d' % k
         macros[m] = 100000 + k
         L.append('#define %s %d' % (m, macros[m]))
+    # #undef / re-#define histories on the macro table (names collide in the low hash bits by construction of `names`)
+    undefd = {}
+    mnames = sorted(macros)
+    for m in rng.sample(mnames, len(mnames) // 3):
+        L.append('#undef %s' % m)
+        del macros[m]
+        k = rng.random()
+        if k < 0.4:
+            macros[m] = rng.randrange(200000, 300000)
+            L.append('#define %s %d' % (m, macros[m]))
+        elif k < 0.8:
+            undefd[m] = rng.randrange(300000, 400000)     # now an ordinary identifier
+    if undefd:
+        L.append('enum { %s };' % ', '.join('%s = %d' % kv for kv in sorted(undefd.items())))
     nchk = [0]
 
     def chk(expr, v, indent=''):
@@ -89,8 +103,10 @@ def gen_unit(rng, nids, depth, maxlen):
         chk(n, val[n])
     for n in tagsz:
         chk('sizeof(struct %s) + %s' % (n, n), tagsz[n] + val[n])
-    for m in rng.sample(sorted(macros), min(len(macros), 50)):
+    for m in rng.sample(sorted(macros), min(len(macros), 120)):
         chk(m, macros[m])
+    for m in sorted(undefd):
+        chk(m, undefd[m])
     # block scopes with systematic shadowing
     L.append('void scopes(void) {')
     stack = [dict(val)]
@@ -126,6 +142,34 @@ def gen_unit(rng, nids, depth, maxlen):
                 sz = rng.randrange(1, 300)
                 L.append('%sstruct %s { char x[%d]; };' % (ind, n, sz))
                 tcur[n] = sz
+        # an inner `struct T;` declares a new type that hides the outer T from here on (6.7.2.3p7)
+        hid = [n for n in tcur if n in tstack[-1] and tcur[n] == tstack[-1][n]]
+        if hid and rng.random() < 0.6:
+            n = rng.choice(hid)
+            sz = rng.randrange(300, 600)
+            L.append('%sstruct %s; struct %s *fw%d_%s;' % (ind, n, n, d, n[:8]))
+            L.append('%sstruct %s { char y[%d]; };' % (ind, n, sz))
+            tcur[n] = sz
+            chk('sizeof(*fw%d_%s)' % (d, n[:8]), sz, ind)
+        # selection and iteration statements and their bodies are blocks of their own (6.8.4p3, 6.8.5p5): a declaration made inside
+        # a body is gone in the controlling expression of do-while, in the else branch, and after the statement
+        for n in rng.sample(ids, 2):
+            if not isinstance(cur[n], int):
+                continue
+            v = cur[n]
+            inner = 'enum { %s = %d }' % (n, v + 1 + rng.randrange(1000))
+            same = 'sizeof(char[%s == %d ? 1 : -1])' % (n, v)
+            L.append(ind + rng.choice([
+                'do (void)sizeof(%s); while (%s == 0);' % (inner, same),
+                'if (0) (void)sizeof(%s); else (void)%s;' % (inner, same),
+                'while (0) (void)sizeof(%s);' % inner,
+                'for (; 0;) (void)sizeof(%s);' % inner,
+                'switch (0) default: (void)sizeof(%s);' % inner,
+                'if (sizeof(%s)) (void)0; else (void)0;' % inner,
+                'for (int %s_l = sizeof(%s); 0;) ;' % (n[:8], inner),
+                'do { (void)sizeof(%s); } while (%s == 0);' % (inner, same),
+            ]))
+            chk(n, v, ind)
         stack.append(cur)
         tstack.append(tcur)
         for n in rng.sample(ids, min(len(ids), 8)):
